@@ -249,7 +249,6 @@ var battery = []sequence{
 		}
 		tx.ProcessLogging()
 		tx.ProcessLogging()
-		_ = tx.Close()
 	}},
 	{"one-byte-chunks", func(tx types.Transaction) {
 		reqHead(tx, "POST", "/p", ctForm)
